@@ -474,6 +474,15 @@ def _run_case(case, ctx):
                 got2 = kern(x1, x2).to_dense()
                 ref2 = _oracle(spec, kern, x1.detach(), x2.detach())
                 ctx.close("kernel_value_after_load_state_dict", got2, ref2.expand(got2.shape) if ref2.numel() != got2.numel() else ref2, tol, cls=cls + ":reloaded")
+                # ... and after the parameters were moved in place (what an optimiser step does), still in evaluation mode and
+                # with autograd off: a covariance FUNCTION has no state besides its current parameters
+                with torch.no_grad():
+                    for n_, p_ in kern.named_parameters():
+                        if "angle" not in n_:
+                            p_.add_(0.25 * util.randn(g, *p_.shape))
+                    got3 = kern(x1, x2).to_dense()
+                    ref3 = _oracle(spec, kern, x1.detach(), x2.detach())
+                ctx.close("kernel_value_after_load_state_dict", got3, ref3.expand(got3.shape) if ref3.numel() != got3.numel() else ref3, tol, cls=cls + ":moved_in_eval_mode")
                 kern.train()
             if spec["k"] in LDB and not spec.get("ard") and d > 1:
                 # documented Kernel.__call__ option: the last input dimension becomes a batch dimension, i.e. one kernel
